@@ -120,8 +120,13 @@ def _compile(chunk, scalar, opts, skipped):
         o2 = {k: v for k, v in opts.items() if k != "language"}
         for rec in chunk:
             try:
+                cm = s5.Module([rec[2]["form"]], scalar, o2)       # a form the C backend rejects is no numba finding
+            except Exception as e:  # noqa: BLE001
+                skipped.append({"item": rec[0], "why": f"ffcx failed: {type(e).__name__}: {str(e)[:300]}",
+                                "ffcx_error": True, "tb": traceback.format_exc()[-2500:]})
+                continue
+            try:
                 nb = s5.NumbaModule([rec[2]["form"]], scalar, o2)
-                cm = s5.Module([rec[2]["form"]], scalar, o2)
                 rec[2]["nb_descriptor"] = nb.descriptor(0)
                 rec[2]["c_descriptor"] = s5.c_descriptor(cm, 0)
                 rec[2]["c_module"] = cm
@@ -176,7 +181,15 @@ def _run(orc, meas, skipped, idx, it, r, progs, mod, k):
     gkind = it.get("case", {}).get("geom", it.get("geom", "affine"))
     for prog in progs:
         prog.form_index = k
-        kernels = mod.kernels(k, prog.itype, prog.subdomain_id)
+        try:
+            kernels = mod.kernels(k, prog.itype, prog.subdomain_id)
+        except Exception as e:  # noqa: BLE001
+            if not isinstance(mod, s5.NumbaModule):
+                raise
+            skipped.append({"item": idx, "why": f"numba form descriptor is inconsistent ({type(e).__name__}: {e}): "
+                                                f"{r.get('nb_descriptor')} vs C {r.get('c_descriptor')}",
+                            "ffcx_error": True, "numba_error": "descriptor", "tb": ""})
+            continue
         if not kernels:
             skipped.append({"item": idx, "why": f"no kernel listed under ({prog.itype}, {prog.subdomain_id})", "missing_kernel": True})
             continue
@@ -266,7 +279,12 @@ def _run(orc, meas, skipped, idx, it, r, progs, mod, k):
             if r.get("c_module") is not None:
                 cm = r["c_module"]
                 Ac = np.zeros(n, dtype=np.dtype(scalar))
-                for kern in cm.kernels(0, prog.itype, prog.subdomain_id):
+                ck = cm.kernels(0, prog.itype, prog.subdomain_id)
+                if prog.cell == "prism" and prog.itype in ("exterior_facet", "interior_facet"):
+                    import basix
+                    want_ = int(basix.CellType[s5.facet_cellname(prog.cell, ent[0])])
+                    ck = [kk for kk in ck if kk.domain == want_]
+                for kern in ck:
                     cm.call(kern, Ac, w_, c_, x_, np.array(ent + [0], dtype=np.int32)[:2].copy(),
                             np.array(perm + [0], dtype=np.uint8)[:2].copy())
                 c_twin = {"A_c": [[float(z.real), float(z.imag)] for z in Ac.astype(complex)],
